@@ -46,6 +46,7 @@ deriving Inhabited
 inductive ParseResult where
   | ok (stmts : List AStmt)
   | syntaxError
+  /-- `ZeroDivisionError` from `Fraction(n, 0)`: unreachable since denominators must be non-zero (kept for the protocol) -/
   | zeroDivision
 deriving Inhabited
 
@@ -87,7 +88,6 @@ def getPos : P Nat := fun _ s => some (s.pos, s)
 /-- number of characters left -/
 def remaining : P Nat := fun t s => some (t.size - s.pos, s)
 
-def setZero : P Unit := fun _ s => some ((), { s with zero := true })
 
 def manyF {α} (p : P α) : Nat → P (List α)
   | 0 => pure []
@@ -169,11 +169,12 @@ def decimal : P (Nat × Num) := do
   let whole ← digits
   let frac ← opt (do lit '.'; textOf (skipMany isDigit))
   match frac with
-  | none => pure (off, ⟨toDouble (natOfDigits whole : Nat), .int⟩)
+  | none => pure (off, ⟨((natOfDigits whole : Nat) : Rat), .int⟩)
   | some frac =>
     pure (off, ⟨toDouble (mkRat (natOfDigits (whole ++ frac) : Nat) (10 ^ frac.length)), .flt⟩)
 
-/-- `fraction <- (r"[0-9]+" hsp)? r"[0-9]+" hsp? "/" hsp? r"[0-9]+"`; always a `Fraction` -/
+/-- `fraction <- (r"[0-9]+" hsp)? r"[0-9]+" hsp? "/" hsp? r"0*[1-9][0-9]*"`; always a `Fraction`.
+    The denominator pattern matches a digit run exactly when it contains a non-zero digit (and then all of it). -/
 def fraction : P (Nat × Num) := do
   let start ← getPos
   let integer ← opt (do let ds ← digits; hsp; pure ds)
@@ -183,9 +184,7 @@ def fraction : P (Nat × Num) := do
   let denom ← digits
   let off := if integer.isSome then start else numerStart
   let d := natOfDigits denom
-  if d = 0 then do
-    setZero
-    pure (off, ⟨0, .frac⟩)
+  if d = 0 then fail
   else
     let i : Nat := natOfDigits (integer.getD [])
     let n : Nat := natOfDigits numer
@@ -441,7 +440,7 @@ end Parser
 def parse (src : Str) : ParseResult :=
   match Parser.recipe src.toArray ⟨0, false⟩ with
   | none => .syntaxError
-  | some (stmts, s) => if s.zero then .zeroDivision else .ok stmts
+  | some (stmts, _) => .ok stmts
 
 /-! ## S-expression encoding -/
 
